@@ -35,6 +35,10 @@ func propC03(c *Ctx) {
 	// a duplicate ENUM declared inside macro bodies must reach the duplicate check: the rules of every pasted body
 	// are collected, unconditionally
 	c.ruleC10RulesWithBody()
+	// a check that walks a list must look at every element, and its verdict on one element must not be the verdict
+	// on another
+	c.ruleLoopsCoverAll("C03-LOOPS-COVER-ALL")
+	c.ruleLoopFlags("C03-LOOP-FLAG")
 }
 
 // orderedMapType: is t (pointer to) one of the generated ordered maps (struct with data map + order slice)?
